@@ -332,7 +332,8 @@ std::vector<Sub> vh_subs() {
           break;
         }
         default: {
-          const uint64_t ell = v[3];
+          // lengths over the whole documented range (ell < 10000), with the size classes 2^8..2^13 crossed in both directions
+          const uint64_t ell = v[3] <= 48 ? (uint64_t)v[3] : ((uint64_t)1 << (8 + (v[3] - 49) % 6)) - 2 + r.below(5) + (v[3] >= 61 ? r.below(1500) : 0);
           Buf X = ar.alloc(ell * 32, UNDER), Y = ar.alloc(ell * 32, OVER), R = ar.alloc(32, OVER, 0, 1);
           for (uint64_t i = 0; i < 4 * ell; ++i) X.as<uint64_t>()[i] = r.next();
           if (fn == 8) for (uint64_t i = 0; i < 4 * ell; ++i) Y.as<uint64_t>()[i] = r.next();
